@@ -501,6 +501,12 @@ private:
           continue;
         }
 
+        if (!_is_rotated_file_of(entry.path(), filename))
+        {
+          // e.g. "app.debug.1.log" belongs to the sink of "app.debug.log", not to "app.log"
+          continue;
+        }
+
         if (_config.rotation_naming_scheme() == RotatingFileSinkConfig::RotationNamingScheme::Index)
         {
           fs::remove(entry);
@@ -561,6 +567,12 @@ private:
         if (entry.path().filename().string().find(filename.stem().string() + ".") != 0)
         {
           // expect to find filename.stem().string() exactly at the start of the filename
+          continue;
+        }
+
+        if (!_is_rotated_file_of(entry.path(), filename))
+        {
+          // e.g. "app.debug.1.log" belongs to the sink of "app.debug.log", not to "app.log"
           continue;
         }
 
@@ -637,6 +649,23 @@ private:
       std::sort(_created_files.begin(), _created_files.end(),
                 [](FileInfo const& a, FileInfo const& b) { return a.index < b.index; });
     }
+  }
+
+  /**
+   * @return true when the entry is named like a rotated file of filename: the stem of filename, a
+   * dot, and then only the digits and dots of an index and/or a date up to the extension
+   */
+  QUILL_NODISCARD static bool _is_rotated_file_of(fs::path const& entry, fs::path const& filename)
+  {
+    std::string const entry_stem = entry.stem().string();
+    std::string const prefix = filename.stem().string() + ".";
+
+    if ((entry_stem.size() <= prefix.size()) || (entry_stem.compare(0, prefix.size(), prefix) != 0))
+    {
+      return false;
+    }
+
+    return entry_stem.find_first_not_of("0123456789.", prefix.size()) == std::string::npos;
   }
 
   /***/
